@@ -5,3 +5,4 @@ import PyhfGen.Model
 import PyhfGen.Prob
 import PyhfGen.Ws
 import PyhfGen.Config
+import PyhfGen.Limits
